@@ -1086,6 +1086,25 @@ func callBuiltin(caller *frame, fn *ssa.Builtin, args []value) value {
 			panic(fmt.Sprintf("cap: illegal operand: %T", x))
 		}
 
+	case "clear": // clear(map) or clear([]T)
+		switch x := args[0].(type) {
+		case *omap:
+			if x != nil {
+				x.entries, x.index, x.n, x.symKeys = nil, map[int][]int{}, 0, 0
+			}
+		case []value:
+			et := fn.Type().(*types.Signature).Params().At(0).Type().Underlying().(*types.Slice).Elem()
+			for i := range x {
+				x[i] = zero(et)
+			}
+		default:
+			panic(fmt.Sprintf("clear: illegal operand: %T", x))
+		}
+		return nil
+
+	case "String": // unsafe.String(*byte, len): only for a pointer to the first element of a byte slice/array
+		return unsafeString(caller, args)
+
 	case "min":
 		return foldLeft(min, args)
 	case "max":
@@ -1563,3 +1582,29 @@ func fandbits[F floaty](x, y F) F {
 }
 
 func isTok(v value) bool { _, ok := v.(tokstr); return ok }
+
+
+// unsafeString models unsafe.String(ptr, n) where ptr points at an element of a
+// []byte backing array (the only use in the interpreted standard library):
+// the engine keeps element pointers as *value into the backing []value.
+func unsafeString(caller *frame, args []value) value {
+	n := asInt64(args[1])
+	if n == 0 {
+		return ""
+	}
+	p, ok := args[0].(*value)
+	if !ok || p == nil {
+		panic(engineError{"unsafe.String on an unmodelled pointer"})
+	}
+	// element pointers are Go pointers into the backing []value of the slice
+	bs := unsafe.Slice(p, int(n))
+	b := make([]byte, n)
+	for i := range b {
+		c, ok := bs[i].(uint8)
+		if !ok {
+			panic(engineError{"unsafe.String over symbolic bytes"})
+		}
+		b[i] = c
+	}
+	return string(b)
+}
